@@ -79,6 +79,7 @@ import "fmt"
 %token ABORT
 %token ACTION
 %token AND
+%token AS
 %token ASC
 %token AUTOINCREMENT
 %token CASCADE
